@@ -1,5 +1,6 @@
 """C14 — output does not depend on MCNP-insignificant formatting of the deck."""
 import random
+import re
 
 from .geomcommon import *  # noqa
 from .. import gen_univ as U
@@ -15,8 +16,12 @@ RULE = ('each generated deck (flat / universes / lattices / LIKE cells, with TR 
         'TR and IMP cards. The written file must be byte-identical to that of the canonical text apart from the '
         'header comment. Also: the 128 upstream decks of the repository are converted (corpus, must not raise). '
         'Streams cards: get_cards/Card.content vs the Lean lexer model. Distinct = (deck, style).')
-NOT_PROVED = ['letter case (lower-casing is done per parser) and the regular expressions that split a cell / surface / data card into '
-              'its fields: decided by the restyling differential only',
+NOT_PROVED = ['letter case of keywords and mnemonics (lower-casing is done per parser) and the regular expressions that split a '
+              'surface / data card into its fields: decided by the restyling differential only; the split of a CELL card '
+              '(cellcard.split) is modelled character by character, tied by the cellsplit stream and proved to return '
+              'number / material / density / geometry / options as written, LIKE and BUT in any letter case '
+              '(cell_card_split_material, cell_card_split_void, cell_card_split_like); its hypothesis OptsAt is not '
+              'derived from a grammar of geometry expressions, and float() spellings inf / nan / 1_0 are outside the model',
               'the block splitter is modelled at the level of lines (what \\n separates); \\r and a blank first line are outside the model']
 ASSUMPTIONS = ['densities and material fractions are only respelled within their spelling class (C09): the strings are '
                'copied into composition names / the COMPOSITION block']
@@ -25,7 +30,7 @@ ASSUMPTIONS = ['densities and material fractions are only respelled within their
 def plan(tier):
     q = tier == 'quick'
     return [('restyle', 150 if q else 3000, {}), ('corpus', 1, {}), ('cards', 200 if q else 3000, {}),
-            ('blocks', 300 if q else 6000, {})]
+            ('blocks', 300 if q else 6000, {}), ('cellsplit', 200 if q else 4000, {})]
 
 
 def search_plan(tier, disagreements):
@@ -89,6 +94,8 @@ def run_case(stream, seed, ctx, params):
         return cards_case(seed, rng, ctx)
     if stream == 'blocks':
         return blocks_case(seed, rng, ctx)
+    if stream == 'cellsplit':
+        return cellsplit_case(seed, rng, ctx)
     d = base_deck(rng)
     if d is None:
         return None
@@ -232,6 +239,79 @@ def blocks_case(seed, rng, ctx):
                 sample={'text': text, 'blocks': code if isinstance(code, dict) else list(code)}, failures=fails)
 
 
+def cellsplit_case(seed, rng, ctx):
+    """cellcard.split vs the Lean model on the one-line content of cell cards: half taken from generated decks
+    (canonical and restyled: every letter case, Fortran spellings, options of every kind), half synthetic and
+    mutated (dropped / inserted characters, missing fields, words that are not numbers)"""
+    from MIP.mip import cellcard
+    from MIP.mip.cards import get_cards
+    from MIP.mip.main import Card
+
+    def code(t):
+        try:
+            return 'ok ' + ' '.join('=' + lean.hx(x) for x in cellcard.split(t))
+        except ValueError as e:
+            return 'ok error ' + ('tooFew' if 'unpack' in str(e) else 'notFloat')
+        except IndexError:
+            return 'ok error noMatch'
+    texts = []
+    if rng.random() < 0.5:
+        d = base_deck(rng)
+        if d is None:
+            return None
+        text = D.render_deck(d, None, imp_on_cards=d.imp_cards is None)
+        if rng.random() < 0.7:
+            text, _ = R.restyle(text, rng)
+        from MIP.mip.blocks import get_block_positions
+        try:
+            bi = get_block_positions(text, firstblock=None)
+            (i1, i2), _ = bi['c']
+        except Exception:  # noqa
+            return None
+        texts = [Card(lines=c, position=n, type='c').content() for c, n, t in get_cards(text[i1:i2], skipcomments=True)
+                 if t == 'card']
+    else:
+        for _ in range(8):
+            name = rng.choice(['5', '12', '007', ' 3', 'a1', '1b', ''])
+            if rng.random() < 0.25:
+                t = (name + ' ' + rng.choice(['like', 'LIKE', 'Like', 'lIkE'])
+                     + rng.choice([' 3 ', ' 12 ', '  7 ', ' 3', ' but 4 ', ' 4 bUt but '])
+                     + rng.choice(['but', 'BUT', 'But', 'bu', 'butt', ' but'])
+                     + rng.choice(['', ' imp:n=1', ' trcl=(1 0 0) u=2', 'but', 'xbut u=1']))
+            else:
+                mat = rng.choice(['0', '1', '12', '0.0', '-0', '00', '+0', '0e3', '1e0', 'x', '.', '0.', '.0', '1.5', '0x',
+                                  'e5', '0e', '1e+', '0E-2'])
+                rho = rng.choice(['-2.7', '1.2e-4', '0.05', '-1', '(1', '2(', '', '-2.7E0'])
+                geom = rng.choice(['-1 2', '(1:2) -3', '-1:2', '#(1 2) 3', '1', '(1 2)', '-1 (2:3)#4 ', '- 1', '1 2 )', '3.1 -4.2'])
+                opts = rng.choice(['', 'imp:n=1', 'IMP:N=1 u=2', '*trcl=(1 0 0 30 60 90 120 30 90 90 90 0)', 'fill=3 (1 0 0)',
+                                   'u=1 imp:n=0', 'vol 1', '*fill=2(0 0 1)'])
+                t = ' '.join([name, mat] + ([rho] if rho else [])) + rng.choice([' ', '']) + geom + rng.choice([' ', '', ' ']) + opts
+            if rng.random() < 0.3:
+                i = rng.randrange(len(t) + 1)
+                t = t[:i] + rng.choice(' )(*a:x1 \t') + t[i:]
+            if rng.random() < 0.2 and t:
+                i = rng.randrange(len(t))
+                t = t[:i] + t[i + 1:]
+            texts.append(t)
+    # outside the model: Python's float() also reads inf / nan / infinity and digits separated by underscores
+    texts = [t for t in texts if '_' not in t and '\n' not in t
+             and not re.search(r'(?i)^\s*\S+\s+[-+]?(inf|nan)', t)]
+    fails = []
+    hs = []
+    dist = {}
+    for t in texts:
+        a = code(t)
+        b = ctx['drv'].ask('cellsplit ' + lean.hx(t))
+        k = 'cellsplit:' + (a.split()[2] if a.startswith('ok error') else 'split')
+        dist[k] = dist.get(k, 0) + 1
+        hs.append(h(t))
+        if a != b:
+            fails.append(fail('disagreement', 'cellcard.split(%r): code %s / model %s' % (t, a[:200], b[:200]),
+                              {'stream': 'cellsplit'}, {'content': t}))
+    return dict(evaluations=len(texts), hashes=hs, nontrivial_hashes=hs, dist=dist,
+                sample={'contents': texts[:3]}, failures=fails[:5])
+
+
 def cards_case(seed, rng, ctx):
     """get_cards + Card.content on a random block vs the Lean lexer model"""
     from MIP.mip.cards import get_cards
@@ -277,6 +357,13 @@ def replay(payload, ctx):
         from MIP.mip.main import Card
         out['code'] = [Card(lines=c, position=n, type='c').content() for c, n, t in get_cards(p['block'], skipcomments=True)]
         out['model'] = [lean.unhx(x) for x in ctx['drv'].ask('cards ' + lean.hx(p['block'])).split()[1:]]
+    if 'content' in p:
+        from MIP.mip import cellcard
+        try:
+            out['code'] = list(cellcard.split(p['content']))
+        except Exception as e:  # noqa
+            out['code'] = 'error %s' % type(e).__name__
+        out['model'] = ctx['drv'].ask('cellsplit ' + lean.hx(p['content']))
     if 'deck' in p:
         res = impl.convert(p['deck'], [])
         out['exception'] = res.exc_type
